@@ -544,6 +544,34 @@ fn drive_pkgdb(ev: &mut Ev, r: &mut Rng, root: &std::path::Path) -> CaseResult {
         }
         expect_dirs += 1;
     }
+    // other kinds of file-system objects, in the database directory and inside
+    // a package directory: symbolic links that dangle, loop, lead to a file or
+    // to a directory; a metadata name that is a directory
+    if !cfg!(miri) && r.chance(1, 2) {
+        use std::os::unix::fs::symlink;
+        let inside = fs::read_dir(root).ok().and_then(|mut d| d.find_map(|e| e.ok().filter(|e| e.path().is_dir()).map(|e| e.path())));
+        for k in 0..r.range(1, 4) {
+            let at = match (&inside, r.chance(1, 2)) {
+                (Some(d), true) => d.clone(),
+                _ => root.to_path_buf(),
+            };
+            let name = *r.pick(&["link-1.0", "+COMMENT", "+DESC", "+CONTENTS", "zz-2", "+REQUIRED_BY", "l"]);
+            let p = at.join(format!("{name}{}", if r.chance(1, 2) { String::new() } else { k.to_string() }));
+            if fs::symlink_metadata(&p).is_ok() {
+                continue;
+            }
+            let made = match r.below(5) {
+                0 => symlink("does/not/exist", &p),
+                1 => symlink(p.file_name().unwrap_or_default(), &p),
+                2 => symlink("/etc/hostname", &p),
+                3 => symlink(root, &p),
+                _ => fs::create_dir(&p),
+            };
+            made.map_err(|e| format!("harness: link: {e}"))?;
+            ev.count("pkgdb/other-file-system-objects");
+            expect_dirs += 1;
+        }
+    }
     let open = match r.below(6) {
         0 => root.join("does-not-exist"),
         1 => {
